@@ -72,6 +72,12 @@ def run(spec, rec):
         ddat[rng.random(shape) < 0.15] = 0.0
         dmask = rng.random(shape) < rng.choice([0.0, 0.1, 0.2])
         data = Spectrum(ddat, mask=dmask, mask_corners=corners)
+        if ndim >= 2 and ci % 4 == 1:
+            # the same spectrum held as a transposed view (what reorder_pops / transpose / swapaxes return): its memory layout is not
+            # part of its value, and need not be the model's
+            perm = tuple(range(ndim))[::-1]
+            data = Spectrum(np.ascontiguousarray(np.transpose(ddat, perm)), mask=np.ascontiguousarray(np.transpose(dmask, perm)),
+                            mask_corners=corners).transpose(perm)
         if folded_data:
             data = data.fold()
         if ci % 5 == 3:
@@ -168,6 +174,20 @@ def run(spec, rec):
                           TOL, site="Inference.optimally_scaled_sfs", tags=tags)
         if zero_model:
             rec.hit("zero-model-cells", int(Z.sum()))
+            # the documented use of the residuals' level argument: level 0 hides the cells where model and data are both zero (the
+            # residual is 0/0 there) and nothing else
+            for lev in (0, 0.0):
+                ok, r = rec.noraise("returns", lambda: Inference.linear_Poisson_residual(model, data, mask=lev), site="Inference.linear_Poisson_residual", tags=dict(tags, level=0))
+                if ok:
+                    rm = np.asarray(np.ma.getmaskarray(r))
+                    want = ~J | ((M <= 0) & (D <= 0))
+                    good = np.array_equal(rm, want)
+                    rec.check("residual-level-mask", good, site="Inference.linear_Poisson_residual", tags=dict(tags, level=0),
+                              observed={"hidden_but_should_show": int((rm & ~want).sum()), "shown_but_should_hide": int((~rm & want).sum())})
+                    if good and (~want).any():
+                        with np.errstate(all="ignore"):
+                            ref0 = (M - D) / np.sqrt(M)
+                        rec.close("linear-residual", relerr(np.asarray(r.data)[~want], ref0[~want]), TOL, site="Inference.linear_Poisson_residual", tags=dict(tags, level=0))
             continue
         if folded_data:
             ok, lla = rec.noraise("returns", lambda: Inference.ll(model.fold(), data), site="Inference.ll", tags=tags)
